@@ -2,7 +2,7 @@
 import ast
 
 from ..astutil import dotted, method_call
-from ..cfg import cfg_of, fact_key, implied, norm, walk_own
+from ..cfg import cfg_of, fact_key, implied, nonempty_keys, norm, walk_own
 from ..consteval import resolve_class, Scope
 from ..locks import regions
 from ..flow import unchanged_param
@@ -200,7 +200,7 @@ def check(ctx):
     ctx.inst('R3', ca, 'only-the-longest-match-is-removed', not pops and len(dels) == 1,
              'an incoming packet releases exactly one entry, the longest matching pattern found by comparing all candidates; a short cut that pops another key '
              '(a remembered length, the first match) cancels the wrong request: %s' % (pops or 'none'))
-    ctx.inst('R3', ca, 'only-on-match', fact_key('len(%s) > 0' % lm, True) in ga.fact_keys_at(dels[0]),
+    ctx.inst('R3', ca, 'only-on-match', bool(nonempty_keys(lm, True) & set(ga.fact_keys_at(dels[0]))),
              'cancel/delete only when a match was found (len(%s) > 0)' % lm)
     ctx.inst('R3', ca, 'after-all-candidates', not any(n.id in {b.id for b in ga.loop_body_nodes(lp)} for n in [c[0] for c in cancels] + [dels[0]]),
              'the entry is cancelled after all candidates were compared')
